@@ -17,6 +17,10 @@ var SimVersion = gen.Version{Name: "verifsim", Release: "0", License: gen.Licens
 // StartLocalNode starts a real node (node.Start) with networking disabled and
 // no default logger inside the current bubble.
 func StartLocalNode(e *Env, name string, mod func(o *gen.NodeOptions)) gen.Node {
+	if !knownNodeNames[name] {
+		e.Infra("node name " + name + " is not pre-registered in simkit (process-wide atom cache, see simnet.go init)")
+		return nil
+	}
 	var o gen.NodeOptions
 	o.Network.Mode = gen.NetworkModeDisabled
 	o.Log.DefaultLogger.Disable = true
